@@ -49,7 +49,11 @@ def t_cipher_roundtrip(E, n, first):
 
 
 class _Mem(object):
+    _pyvc_trusted = True
     code_start = 4718
+    def stack_start(self):
+        # default memory size 65534, stack 512 (DataSegment.stack_start)
+        return 65534 - 512 - 2
 
 
 def _program(E, body, allow_protect=True):
